@@ -17,14 +17,24 @@ def rule_g1(repo, res):
         c, fn = repo.resolve_method(dcls, "decode_simple_value")
         from .. import canon
         fn = canon.canon(repo, c, fn, module="decoder")       # a named tuple of attempts is read in place
+        # the attempts in the order the source names them (a loop over a tuple of bound methods, the same loop written
+        # out, or the tuple handed to for_try_except: in all of them the order of the references is the trial order)
         order = []
-        for n in ast.walk(fn):
-            if isinstance(n, ast.For) and isinstance(n.iter, (ast.Tuple, ast.List)):
-                order = [e.attr for e in n.iter.elts if isinstance(e, ast.Attribute)]
+
+        def visit(n):
+            if isinstance(n, ast.Attribute) and isinstance(n.value, ast.Name) and n.value.id == "self" and n.attr.startswith("decode_") \
+                    and isinstance(n.ctx, ast.Load):
+                if n.attr not in order:
+                    order.append(n.attr)
+            for ch in ast.iter_child_nodes(n):
+                visit(ch)
+        for st in fn.body:
+            visit(st)
         want = ["decode_quoted_string", "decode_non_decimal", "decode_decimal", "decode_datetime"]
-        ok = order == want
+        ok = order[:4] == want
         last = fn.body[-1]
-        ok_last = isinstance(last, ast.Return) and norm(last.value).startswith("self.decode_unquoted_string(")
+        ok_last = isinstance(last, ast.Return) and norm(last.value).startswith("self.decode_unquoted_string(") and order[4:] == ["decode_unquoted_string"]
+        order = order[:4]
         res.oblige("G1", f"{dcls}.decode_simple_value ({c}): cascade quoted, based, decimal, date-time, then unquoted", ok=ok and ok_last)
         if not (ok and ok_last):
             res.add(Finding("G1", f"{c}.decode_simple_value", "cascade order",
